@@ -141,14 +141,23 @@ pub fn check(c: &Case, ctx: &mut Ctx) -> Result<(), Failure> {
     Ok(())
 }
 
+/// few distinct, not exactly summable values (tick-grid prices): windows with many repeats
+fn inp_grid() -> BoxedStrategy<Inp> {
+    (0usize..7, any::<bool>()).prop_map(|(k, scalar)| {
+        let c = 23.0 + 0.15 * k as f64;
+        Inp { bar: crate::adapter::RawBar { o: c, h: c + 0.3, l: c - 0.15, c, v: 100.0 + k as f64 }, scalar }
+    }).boxed()
+}
+
 fn strategy(cap: usize, maxops: usize) -> BoxedStrategy<Case> {
-    any_kind()
-        .prop_flat_map(move |k| cfg_for(k, cap, multiplier_any()))
-        .prop_flat_map(move |cfg| {
+    (any_kind(), any::<bool>())
+        .prop_flat_map(move |(k, grid)| (cfg_for(k, cap, multiplier_any()), Just(grid)))
+        .prop_flat_map(move |(cfg, grid)| {
             let w = flush_len(&cfg);
-            let pre = vec((prop_oneof![4 => Just(0u8), 1 => Just(2u8)], inp_special(6)), w..=(2 * w + 4));
+            let inp = move || if grid { inp_grid() } else { inp_special(6) };
+            let pre = vec((prop_oneof![4 => Just(0u8), 1 => Just(2u8)], inp()), w..=(2 * w + 4));
             let post_len = (2 * w + 4).min(maxops)..=(6 * w + 20).min(maxops.max(2 * w + 4));
-            let post = vec((prop_oneof![4 => Just(0u8), 4 => Just(1u8), 1 => Just(2u8)], inp_special(6)), post_len);
+            let post = vec((prop_oneof![4 => Just(0u8), 4 => Just(1u8), 1 => Just(2u8)], inp()), post_len);
             let other = any_kind().prop_flat_map(|k| cfg_for(k, 24, multiplier_any()));
             (Just(cfg), pre, post, other, any::<bool>())
         })
@@ -265,8 +274,8 @@ pub fn run(g: &mut Global) {
         },
         &check,
     );
-    let cap = g.tier.pick(64usize, 256usize);
-    let maxops = g.tier.pick(400usize, 2000usize);
+    let cap = g.tier.pick(300usize, 1024usize);
+    let maxops = g.tier.pick(2500usize, 8000usize);
     g.random("random", g.tier.pick(40000, 300000), &move || strategy(cap, maxops), &check);
     g.random("threads", g.tier.pick(208, 5008), &thread_strategy, &check_threads);
     if g.tier == Tier::Thorough {
